@@ -59,7 +59,7 @@ def repo_include_files():
 
 # ------------------------------------------------------------------------------------------
 # translators
-TRANSLATORS = ["tables.py", "shapes.py", "locks.py", "access.py"]
+TRANSLATORS = ["tables.py", "shapes.py", "locks.py", "access.py", "parse.py"]
 
 
 def regenerate():
@@ -250,6 +250,9 @@ def build_driver():
 SAN_FLAGS = ["-fsanitize=address,undefined", "-fno-sanitize-recover=all", "-fno-omit-frame-pointer"]
 
 
+HARNESS_LIBS = {"h_tls": ["-lssl", "-lcrypto"]}
+
+
 def build_harness(name, flavour="plain", extra=None, timeout=900):
     """compile cpp/<name>.cpp against /repo/include as it is now; returns (path|None, log)"""
     extra = extra or []
@@ -271,7 +274,7 @@ def build_harness(name, flavour="plain", extra=None, timeout=900):
         stamp = out_bin + ".stamp"
         if os.path.exists(out_bin) and os.path.exists(stamp) and open(stamp).read() == key:
             return out_bin, "cached"
-        rc, out = sh(["g++"] + flags + [src, "-o", out_bin], timeout=timeout)
+        rc, out = sh(["g++"] + flags + [src, "-o", out_bin] + HARNESS_LIBS.get(name, []), timeout=timeout)
         if rc != 0:
             return None, out[-4000:]
         open(stamp, "w").write(key)
